@@ -33,6 +33,8 @@ const Prelude = `(set-option :produce-models true)
 (declare-fun strsub (Str Int Int) Str)
 (assert (forall ((s Str) (lo Int) (hi Int)) (! (=> (and (<= 0 lo) (<= lo hi) (<= hi (len s))) (= (len (strsub s lo hi)) (- hi lo))) :pattern ((strsub s lo hi)))))
 (assert (forall ((s Str) (lo Int) (hi Int) (i Int)) (! (=> (and (<= 0 lo) (<= lo hi) (<= hi (len s)) (<= 0 i) (< i (- hi lo))) (= (at (strsub s lo hi) i) (at s (+ lo i)))) :pattern ((at (strsub s lo hi) i)))))
+; strafter(s, p): what follows the prefix p in s
+(declare-fun strafter (Str Str) Str)
 (declare-const emptyStr Str)
 (assert (= (len emptyStr) 0))
 (assert (forall ((s Str)) (! (=> (= (len s) 0) (= s emptyStr)) :pattern ((len s)))))
@@ -43,6 +45,15 @@ const Prelude = `(set-option :produce-models true)
 (assert (forall ((s Str) (p Str)) (! (=> (hasPrefix s p) (<= (len p) (len s))) :pattern ((hasPrefix s p)))))
 (assert (forall ((s Str) (p Str) (i Int)) (! (=> (and (hasPrefix s p) (<= 0 i) (< i (len p))) (= (at s i) (at p i))) :pattern ((hasPrefix s p) (at s i)) :pattern ((hasPrefix s p) (at p i)))))
 (assert (forall ((s Str) (p Str)) (! (or (hasPrefix s p) (> (len p) (len s)) (and (<= 0 (pfxdiff s p)) (< (pfxdiff s p) (len p)) (not (= (at s (pfxdiff s p)) (at p (pfxdiff s p)))))) :pattern ((hasPrefix s p)))))
+(assert (forall ((s Str) (p Str)) (! (=> (hasPrefix s p) (= (len (strafter s p)) (- (len s) (len p)))) :pattern ((strafter s p)))))
+(assert (forall ((s Str) (p Str) (i Int)) (! (=> (and (hasPrefix s p) (<= 0 i) (< i (- (len s) (len p)))) (= (at (strafter s p) i) (at s (+ (len p) i)))) :pattern ((at (strafter s p) i)))))
+; derived facts about concatenation (theorems of finite byte sequences, stated so that no induction is needed)
+(assert (forall ((a Str) (b Str)) (! (hasPrefix (strcat a b) a) :pattern ((strcat a b)))))
+(assert (forall ((a Str) (b Str)) (! (= (strafter (strcat a b) a) b) :pattern ((strafter (strcat a b) a)))))
+(assert (forall ((s Str) (p Str) (b Str)) (! (=> (hasPrefix s p) (and (hasPrefix (strcat s b) p) (= (strafter (strcat s b) p) (strcat (strafter s p) b)))) :pattern ((strafter (strcat s b) p)) :pattern ((hasPrefix s p) (strcat s b)))))
+(assert (forall ((a Str) (b Str) (c Str)) (! (= (strcat (strcat a b) c) (strcat a (strcat b c))) :pattern ((strcat (strcat a b) c)))))
+(assert (forall ((a Str)) (! (and (= (strcat emptyStr a) a) (= (strcat a emptyStr) a)) :pattern ((strcat emptyStr a)) :pattern ((strcat a emptyStr)))))
+(assert (forall ((s Str)) (! (and (hasPrefix s s) (= (strafter s s) emptyStr)) :pattern ((strafter s s)))))
 ; ---- slices ---------------------------------------------------------------------
 (declare-datatypes ((Slice 0)) (((mkslice (sbase Int) (soff Int) (slen Int) (scap Int)))))
 (define-fun nilSlice () Slice (mkslice 0 0 0 0))
